@@ -119,7 +119,6 @@ func (h *histRun) stop() bool {
 	h.res.Logf("follower stopped: err=%q sidecar=%d replica max=%d", msg, sc, h.p.max())
 	if msg != "" {
 		h.res.Count("graceful_stop_returned_error", 1) // e.g. cancelled during the initial restore: allowed
-		h.res.Count(fmt.Sprintf("dbg_stop_error:%.90s", msg), 1)
 	}
 	h.f = nil
 	return true
